@@ -37,6 +37,7 @@ INFO = {
 }
 
 MANIFEST = {
+    "technique": 'bounded symbolic execution of the real forest/tree code (CrossHair engine + z3): symbolic input, unbounded symbolic forest index, unbounded symbolic weights in the index-decoding arithmetic (non-linear integer queries)',
     "level_text": "Bounded symbolic execution of the real forest code: path-exhaustive over inputs (A), over an "
     "unbounded symbolic index into concrete forests (B), and a solver proof of the index decoding arithmetic for "
     "unbounded weights within a fixed number of children (C).",
